@@ -295,6 +295,14 @@ func argForms() []argForm {
 		f("assert.subroutine_called", callRecv, true, `"helper"`), f("assert.subroutine_called", callRecv, false, `"vcl_fetch"`),
 		f("assert.not_subroutine_called", callRecv, true, `"vcl_fetch"`), f("assert.not_subroutine_called", callRecv, false, `"helper"`),
 	}
+	// testing.inject_variable takes the VALUE of its argument: a later assignment to the local it was
+	// read from does not change the injected variable
+	forms = append(forms,
+		f("assert.equal", `declare local var.s STRING; set var.s = "tokyo"; testing.inject_variable("client.geo.city", var.s); set var.s = "osaka";`, true, "client.geo.city", `"tokyo"`),
+		f("assert.equal", `declare local var.s STRING; set var.s = "tokyo"; testing.inject_variable("client.geo.city", var.s); set var.s = "osaka";`, false, "client.geo.city", `"osaka"`),
+		f("assert.equal", `declare local var.i INTEGER; set var.i = 7; testing.inject_variable("client.geo.metro_code", var.i); set var.i += 1;`, true, "client.geo.metro_code", "7"),
+		f("assert.equal", `declare local var.s STRING; set var.s = "a"; testing.inject_variable("client.geo.city", var.s); set var.s = var.s "b"; testing.inject_variable("client.geo.country_code", var.s); set var.s = "c";`, true, "client.geo.city client.geo.country_code", `"aab"`),
+	)
 	// assert.error(code [, response text]) — each combination of right/wrong code and text
 	for _, code := range []struct {
 		v  string
